@@ -49,6 +49,9 @@ fn strip_repo(loc: &str) -> String {
 thread_local! {
     /// largest CPU time (ms) a single guarded API call of this thread has consumed
     pub static MAX_CALL_CPU_MS: std::cell::Cell<u64> = const { std::cell::Cell::new(0) };
+    /// (emptiness-decision steps, largest number of negated atoms) of that slowest call, from the
+    /// probe in beff-core (hook `beff_verif`)
+    pub static MAX_CALL_PROBE: std::cell::Cell<(u64, u64)> = const { std::cell::Cell::new((0, 0)) };
 }
 
 fn thread_cpu_ms() -> u64 {
@@ -62,11 +65,27 @@ fn thread_cpu_ms() -> u64 {
 pub fn take_max_call_cpu_ms() -> u64 {
     MAX_CALL_CPU_MS.with(|m| m.replace(0))
 }
+/// to be called before `take_max_call_cpu_ms`
+pub fn take_max_call_probe() -> (u64, u64) {
+    MAX_CALL_PROBE.with(|m| m.replace((0, 0)))
+}
+
+/// KF-C04-26: a slow or stalled build is attributed to the exponential emptiness decision of the
+/// semantic engine iff the probe saw that much of it, entered with that many negated atoms
+pub const EXPONENTIAL_STEPS: u64 = 1_000_000;
+pub const EXPONENTIAL_NEGS: u64 = 6;
+pub fn probe_says_exponential(p: (u64, u64)) -> bool {
+    p.0 >= EXPONENTIAL_STEPS && p.1 >= EXPONENTIAL_NEGS
+}
 
 fn guarded<T>(f: impl FnOnce() -> T) -> Result<T, String> {
     let t0 = thread_cpu_ms();
+    beff_core::verif_probe::reset();
     let r = guarded_inner(f);
     let dt = thread_cpu_ms().saturating_sub(t0);
+    if dt >= MAX_CALL_CPU_MS.with(|m| m.get()) {
+        MAX_CALL_PROBE.with(|m| m.set(beff_core::verif_probe::read()));
+    }
     MAX_CALL_CPU_MS.with(|m| m.set(m.get().max(dt)));
     r
 }
@@ -144,6 +163,7 @@ pub struct FreshResult {
     pub resolved_to: Vec<String>,
     pub update_panic: Option<String>,
     pub max_call_cpu_ms: u64,
+    pub max_call_probe: (u64, u64),
 }
 
 /// A fresh simulated process: new thread (empty thread-local module cache), hash keys chosen by
@@ -250,6 +270,7 @@ pub fn fresh_process(fs: &Fs, entry: &str, settings: &Settings, v: &Variant) -> 
                 files_read: st.files_read.iter().cloned().collect(),
                 resolved_to,
                 update_panic,
+                max_call_probe: take_max_call_probe(),
                 max_call_cpu_ms: take_max_call_cpu_ms(),
             }
         })
